@@ -14,26 +14,9 @@ Require Import Grits.Base Grits.ModeDefs Grits.Modes Grits.STypes Grits.Forms Gr
                Grits.Runtime Grits.spec.RtTyping Grits.spec.Topo Grits.proofs.RtSubst Grits.proofs.RtEffect
                Grits.proofs.StepErrors Grits.proofs.RtSafety Grits.proofs.RtInit Grits.proofs.RtProgress.
 
-(* ------------------------------------------------------------------ the fragment *)
-Fixpoint frag_form (f : form) : bool :=
-  match f with
-  | FSend _ _ _ | FSel _ _ _ | FClose _ | FCall _ _ _ | FCast _ _ => true
-  | FRecv _ _ _ k | FWait _ k | FShift _ _ k | FPrint _ k | FDrop _ k | FSplit _ _ _ k => frag_form k
-  | FCase _ bs => frag_brs bs
-  | FNew _ b k => frag_form b && frag_form k
-  | FFwd _ _ _ => true
-  end
-with frag_brs (b : branches) : bool :=
-  match b with
-  | BrNil => true
-  | BrCons _ _ k r => frag_form k && frag_brs r
-  end.
-
-(* every form; one provider name per top-level process; no assumed names *)
-Definition in_fragment (p : program) : Prop :=
-  p_assumed p = [] /\
-  Forall (fun pr => frag_form (pr_body pr) = true /\ exists n, pr_providers pr = [n]) (p_procs p) /\
-  Forall (fun fd => frag_form (fn_body fd) = true) (p_funs p).
+(* ------------------------------------------------------------------ the programs covered *)
+(* every accepted CLOSED program (no assumed names): all forms, any number of provider names *)
+Definition in_fragment (p : program) : Prop := p_assumed p = [].
 
 (* ------------------------------------------------------------------ runs *)
 Lemma enabled_sound md D F c ch : In ch (enabled md D F c) -> step md D F c ch <> SNotEnabled.
